@@ -284,7 +284,19 @@ func featuresOf(c *core.Case) *features {
 		}
 		if isRedirect {
 			f.redirects++
-			for k := 1; k <= 8; k++ {
+			// a branch whose operand comes from a load issued just before it
+			// resolves after a whole memory latency: the wrong path runs far
+			window := 8
+			if in.Op.IsCondBranch() {
+				for _, r := range in.Reads() {
+					for _, d := range dep[r] {
+						if i-d <= 6 {
+							window = 32
+						}
+					}
+				}
+			}
+			for k := 1; k <= window; k++ {
 				j := int(st.Idx) + k
 				if j >= len(p.Insts) {
 					break
@@ -301,6 +313,12 @@ func featuresOf(c *core.Case) *features {
 					f.shadowHasStore = true
 					if in.Op.IsCondBranch() {
 						oShadow = append(oShadow, origin{pos: i, memAny: true})
+						// an older load still in flight may see the wrong-path store
+						for a := len(accs) - 1; a >= 0 && i-accs[a].pos <= 8; a-- {
+							if !accs[a].store {
+								oShadow = append(oShadow, origin{pos: accs[a].pos, reg: accs[a].rd, hasReg: true})
+							}
+						}
 					}
 				}
 				if sh.Op.IsLoad() || sh.Op.IsStore() {
